@@ -38,6 +38,8 @@ SelectorsAll ==
     \cup {[by |-> "pos", p |-> psys.atoms[i].p, off |-> "exact", atol |-> "zero", target |-> i] : i \in 1..N}
     \cup {[by |-> "pos", p |-> psys.atoms[i].p, off |-> "within", atol |-> "zero", target |-> 0] : i \in 1..N}
     \cup {[by |-> "pos", p |-> psys.atoms[i].p, off |-> "beyond", atol |-> "wide", target |-> i] : i \in 1..N}
+    \* a tolerance so large that every atom is within it: with more than one atom the site is ambiguous (refused), with one it is that atom
+    \cup {[by |-> "pos", p |-> psys.atoms[i].p, off |-> "exact", atol |-> "huge", target |-> IF N = 1 THEN i ELSE 0] : i \in 1..N}
     \cup {[by |-> "image", p |-> Add(psys.atoms[i].p, VecMat(n, psys.cell.v)), target |-> i] :
             i \in 1..N, n \in {s \in Shifts(psys.pbc, 1) : Norm2(s) = 1}}
     \cup {[by |-> "relpos", i |-> i - 1, target |-> i] : i \in 1..N}
